@@ -110,6 +110,15 @@ theorem wf_ResultSetQuery : ResultSetQuery.WF := by decide
 theorem wf_FastToken : FastToken.WF := by decide
 theorem wf_Sasl2Success : Sasl2Success.WF := by decide
 theorem wf_ResultSetReply : ResultSetReply.WF := by decide
+theorem wf_PubSubIqUnsubscribe : PubSubIqUnsubscribe.WF := by decide
+theorem wf_PubSubIqSubscribe : PubSubIqSubscribe.WF := by decide
+theorem wf_PubSubIqOptions : PubSubIqOptions.WF := by decide
+theorem wf_PubSubIqCreate : PubSubIqCreate.WF := by decide
+theorem wf_PubSubIqDelete : PubSubIqDelete.WF := by decide
+theorem wf_PubSubIqPurge : PubSubIqPurge.WF := by decide
+theorem wf_PubSubIqConfigure : PubSubIqConfigure.WF := by decide
+theorem wf_PubSubIqDefault : PubSubIqDefault.WF := by decide
+theorem wf_PubSubIqOwnerDefault : PubSubIqOwnerDefault.WF := by decide
 
 /-! ## non-vacuity: concrete values meeting the hypotheses -/
 
